@@ -210,6 +210,63 @@ pub fn exec_more(t: &[&str]) -> R {
             let want = format!("{} {} dec=1 val=1", hex(&msg), hex(&f));
             Ok(format!("same={} cross12={} cross21={}", (t1 == t2) as u8, (o12.as_deref() == Ok(want.as_str())) as u8, (o21.as_deref() == Ok(want.as_str())) as u8))
         }
+        // oracle-only: RegisteredClaims (distinct values in every field, variant-dependent absences) with a JSON footer through the
+        // whole pipeline with the library's own randomness: the unsealed claims and footer equal the original field by field
+        "o.rtj" => {
+            let (b, p, key) = (be(1)?, Kind::parse(t.get(2).ok_or_else(bad)?).ok_or_else(bad)?, hx(3)?);
+            let variant: u32 = t.get(4).and_then(|x| x.parse().ok()).ok_or_else(bad)?;
+            with_v!(b, V => with_purpose!(p, P => o_rtj::<V, P>(&key, variant), else Err(bad())))
+        }
+        // oracle-only: the convenience wrappers (encrypt_with_aad / sign_with_aad / decrypt_with_aad / verify_with_aad and the
+        // assertion-free forms) bind the implicit assertion: what was sealed under `a` opens under `a` only
+        "o.aadbind" => {
+            let (b, p, key, msg, a) = (be(1)?, Kind::parse(t.get(2).ok_or_else(bad)?).ok_or_else(bad)?, hx(3)?, hx(4)?, hx(5)?);
+            with_v!(b, V => match p {
+                Kind::Local => {
+                    let k = if key.is_empty() { Key::<V, Local>::random().map_err(en)? } else { key_of::<V, Local>(&key).map_err(en)? };
+                    let sealed = UnsealedToken::<V, Local, RecRaw>::new(RecRaw(msg.clone())).encrypt_with_aad(&k, &a).map(|t| t.to_string());
+                    let plain = UnsealedToken::<V, Local, RecRaw>::new(RecRaw(msg.clone())).encrypt(&k).map(|t| t.to_string()).map_err(|e| format!("encrypt-{}", en(e)))?;
+                    let nv = paseto_core::validation::NoValidation::<RecRaw>::dangerous_no_validation;
+                    let open = |s: &str, aad: Option<&[u8]>| -> bool {
+                        let Ok(t) = s.parse::<SealedToken<V, Local, RecRaw>>() else { return false };
+                        match aad { Some(x) => t.decrypt_with_aad(&k, x, &nv()).is_ok(), None => t.decrypt(&k, &nv()).is_ok() }
+                    };
+                    let mut other = a.clone(); other.push(b'x');
+                    Ok(match &sealed {
+                        Ok(s) => format!("sealed=1 same={} none={} empty={} other={} plain_none={} plain_a={}", open(s, Some(&a)) as u8, open(s, None) as u8, open(s, Some(&[])) as u8, open(s, Some(&other)) as u8, open(&plain, None) as u8, open(&plain, Some(&a)) as u8),
+                        Err(_) => format!("sealed=0 plain_none={} plain_a={}", open(&plain, None) as u8, open(&plain, Some(&a)) as u8),
+                    })
+                }
+                Kind::Public => {
+                    let k = if key.is_empty() { Key::<V, Secret>::random().map_err(en)? } else { key_of::<V, Secret>(&key).map_err(en)? };
+                    let pk = k.public_key();
+                    let sealed = UnsealedToken::<V, Public, RecRaw>::new(RecRaw(msg.clone())).sign_with_aad(&k, &a).map(|t| t.to_string());
+                    let plain = UnsealedToken::<V, Public, RecRaw>::new(RecRaw(msg.clone())).sign(&k).map(|t| t.to_string()).map_err(|e| format!("sign-{}", en(e)))?;
+                    let nv = paseto_core::validation::NoValidation::<RecRaw>::dangerous_no_validation;
+                    let open = |s: &str, aad: Option<&[u8]>| -> bool {
+                        let Ok(t) = s.parse::<SealedToken<V, Public, RecRaw>>() else { return false };
+                        match aad { Some(x) => t.verify_with_aad(&pk, x, &nv()).is_ok(), None => t.verify(&pk, &nv()).is_ok() }
+                    };
+                    let mut other = a.clone(); other.push(b'x');
+                    Ok(match &sealed {
+                        Ok(s) => format!("sealed=1 same={} none={} empty={} other={} plain_none={} plain_a={}", open(s, Some(&a)) as u8, open(s, None) as u8, open(s, Some(&[])) as u8, open(s, Some(&other)) as u8, open(&plain, None) as u8, open(&plain, Some(&a)) as u8),
+                        Err(_) => format!("sealed=0 plain_none={} plain_a={}", open(&plain, None) as u8, open(&plain, Some(&a)) as u8),
+                    })
+                }
+                _ => Err(bad()),
+            })
+        }
+        // oracle-only: siblings with a payload type whose encoding suffix is non-empty (header `vNc.local.`)
+        "o.sibc" => {
+            let (ver, key, nonce, msg, f, a) = (*t.get(1).ok_or_else(bad)?, hx(2)?, hx(3)?, hx(4)?, hx(5)?, hx(6)?);
+            let (b1, b2) = match ver { "3" => (Be::V3, Be::V3Lc), "4" => (Be::V4, Be::V4S), _ => return Err(bad()) };
+            let t1 = with_v!(b1, V => { let k = key_of::<V, Local>(&key).map_err(en)?; seal_with_c::<V, Local>(&k, nonce.clone(), &msg, &f, &a).map_err(en)? });
+            let t2 = with_v!(b2, V => { let k = key_of::<V, Local>(&key).map_err(en)?; seal_with_c::<V, Local>(&k, nonce.clone(), &msg, &f, &a).map_err(en)? });
+            let o12 = with_v!(b2, V => { let k = key_of::<V, Local>(&key).map_err(en)?; open_with_c::<V, Local>(&k, &t1, &a) });
+            let o21 = with_v!(b1, V => { let k = key_of::<V, Local>(&key).map_err(en)?; open_with_c::<V, Local>(&k, &t2, &a) });
+            let want = format!("{} {} dec=1 val=1", hex(&msg), hex(&f));
+            Ok(format!("same={} cross12={} cross21={}", (t1 == t2) as u8, (o12.as_deref() == Ok(want.as_str())) as u8, (o21.as_deref() == Ok(want.as_str())) as u8))
+        }
         // oracle-only: a footer type whose decoder is not injective (trailing spaces are ignored, as a JSON footer ignores
         // whitespace and unknown members): the token is authenticated over the footer bytes *as received*, so the same token
         // with the footer replaced by different bytes that decode to the same value must fail, with no decoder / validator call
@@ -233,6 +290,29 @@ impl paseto_core::encodings::Footer for TrimFooter {
         while v.last() == Some(&b' ') { v.pop(); }
         Ok(TrimFooter(v))
     }
+}
+
+fn o_rtj<V: ORt<P>, P: Purpose>(key: &[u8], variant: u32) -> R {
+    use paseto_json::{Json, RegisteredClaims};
+    let (sk, pk) = V::keys(key).map_err(|e| format!("key-{}", en(e)))?;
+    let ts = |s: i64| paseto_json::jiff::Timestamp::from_second(s).unwrap();
+    let mut c = RegisteredClaims::default();
+    // distinct values everywhere; which fields are present depends on the variant
+    if variant != 1 { c.iss = Some("issuer-value".into()); }
+    c.sub = Some("subject \"quoted\" \\ / \u{e9}\n".into());
+    if variant != 2 { c.aud = Some("audience".into()); }
+    c.exp = Some(ts(4_102_444_800));
+    if variant != 3 { c.nbf = Some(ts(1_600_000_000)); }
+    c.iat = Some(ts(1_500_000_123));
+    if variant != 0 { c.jti = Some("id-1".into()); }
+    let footer = serde_json::json!({"kid": "key-1", "n": [1, 2, 3]});
+    let t = UnsealedToken::<V, P, RegisteredClaims>::new(c.clone()).with_footer(Json(footer.clone())).seal(&sk, &[]).map_err(|e| format!("seal-{}", en(e)))?;
+    let s = t.to_string();
+    let t2: SealedToken<V, P, RegisteredClaims, Json<serde_json::Value>> = s.parse().map_err(|e| format!("parse-{}", en(e)))?;
+    let u = t2.unseal(&pk, &[], &paseto_core::validation::NoValidation::dangerous_no_validation()).map_err(|e| format!("unseal-{}", en(e)))?;
+    let g = &u.claims;
+    let same = g.iss == c.iss && g.sub == c.sub && g.aud == c.aud && g.exp == c.exp && g.nbf == c.nbf && g.iat == c.iat && g.jti == c.jti;
+    Ok(format!("claims_same={} footer_same={}", same as u8, (u.footer.0 == footer) as u8))
 }
 
 fn o_fcanon<V: ORt<P>, P: Purpose>(key: &[u8], msg: &[u8], f: &[u8]) -> R {
